@@ -73,6 +73,29 @@ impl Check for SampleStats {
         judge(o, "Skewness::sample_variance", s.sample_variance(), &sv, env)?;
         judge(o, "Kurtosis::sample_variance", k.sample_variance(), &sv, env)?;
         judge(o, "WeightedMeanWithError::sample_variance", w.sample_variance(), &sv, env)?;
+        {
+            // the same through a merge: the first half carries weight 0 (it contributes to the
+            // unweighted statistics only), in both merge directions
+            use average::Merge;
+            let h = n / 2;
+            let mut left = WeightedMeanWithError::new();
+            for x in &xs[..h] {
+                left.add(*x, 0.0);
+            }
+            let right: WeightedMeanWithError = xs[h..].iter().map(|x| (*x, 1.5)).collect();
+            let mut lr = left.clone();
+            lr.merge(&right);
+            let mut rl = right.clone();
+            rl.merge(&left);
+            judge(o, "WeightedMeanWithError::sample_variance (zero-weight chunk merged with a weighted one)", lr.sample_variance(), &sv, env)?;
+            judge(o, "WeightedMeanWithError::sample_variance (weighted chunk merged with a zero-weight one)", rl.sample_variance(), &sv, env)?;
+            let (mv, ms): (Variance, Skewness) = (xs[..h].iter().collect(), xs[..h].iter().collect());
+            let (mut mv, mut ms) = (mv, ms);
+            mv.merge(&xs[h..].iter().collect());
+            ms.merge(&xs[h..].iter().collect());
+            judge(o, "Variance::sample_variance (two merged halves)", mv.sample_variance(), &sv, env)?;
+            judge(o, "Skewness::sample_variance (two merged halves)", ms.sample_variance(), &sv, env)?;
+        }
         judge(o, "Moments4::sample_variance", m4.sample_variance(), &sv, env)?;
         if hi {
             judge(o, "M6::sample_variance", m6.sample_variance(), &sv, env)?;
